@@ -25,7 +25,7 @@ def normal(p):
     """the path does not take an error (`?` Break) exit"""
     for (_, d, taken) in p.conds:
         s = d.single() if isinstance(d, Aff) else None
-        if isinstance(s, tuple) and s[0] == 'discr' and isinstance(s[1], tuple) and s[1][0] == 'call' and 'Try::branch' in str(s[1][1]) and taken == 1:
+        if isinstance(s, tuple) and s[0] == 'discr' and isinstance(s[1], tuple) and (s[1][0] == 'try' or (s[1][0] == 'call' and 'Try::branch' in str(s[1][1]))) and taken == 1:
             return False
     return True
 
@@ -121,37 +121,31 @@ def budget_loop(prog, R, b):
         return
     piece = spa[0][0]
     c = Aff.sym(('len', piece.single()))
-    # fill = the loop-carried local that is reset to 0 on the line-feed path
     hs = lambda l: Aff.sym(('H', l))
-    fills = [l for l, v in p0.env.items() if isinstance(l, int) and isinstance(v, Aff) and v == Aff.const(0) and any(
-        q.env.get(l, hs(l)) == hs(l) + c for q, _ in whole)]
-    width = None
-    if len(fills) == 1:
-        fill = fills[0]
-        # width := split offset + fill
-        width = spa[0][1] + hs(fill) if isinstance(spa[0][1], Aff) else None
-    if width is None or (wl and width != hs(wl[0])):
-        R.add('WRAP-2', b, 'split-at-remaining-width', False, where,
-              'the piece is split at %r; no loop-carried fill f with  split offset = width - f  where f restarts at 0 after the line feed and grows by len(piece) otherwise (candidates: %s)' % (spa[0][1], fills))
+    rem = spa[0][1]          # the remaining width of the line, as the code expresses it (width - fill, or a `room` counter)
+    if not isinstance(rem, Aff) or not wl:
+        R.undecided('WRAP-2', b, 'split-at-remaining-width', where, 'the split offset %r is not an affine expression of loop-carried values / no parameter called wrap' % (rem,))
         return
-    rem = width - hs(fill)
+    W = hs(wl[0])
+
+    def after(p, a):
+        """value of the expression `a` (over loop-header values) in the state at the end of path p"""
+        return a.subst(lambda sy: p.env.get(sy[1]) if (isinstance(sy, tuple) and sy[0] == 'H' and isinstance(p.env.get(sy[1]), Aff)) else None)
     u = c - rem                      # > 0  <=> the piece does not fit
     base = u - Aff.const(u.c)
-    n = 0
     for p, ws in whole:
-        n += 1
         preds = linear_preds(p.conds, base)
         fits = bool(preds) and not any(preds_hold(preds, d - u.c) for d in (1, 2, 1 << 40))
         onlypiece = len(ws) == 1 and ws[0][1][1] == piece
-        grows = p.env.get(fill, hs(fill)) == hs(fill) + c
+        shrinks = after(p, rem) == rem - c
         R.add('WRAP-1', b, 'whole-piece-only-if-it-fits', fits and onlypiece, where,
-              'path writing %s: conditions imply len(piece) <= width - fill: %s' % ([repr(a[1]) for _, a in ws], fits))
-        R.add('WRAP-1', b, 'fill-grows-by-piece-length', grows, where, 'fill after writing the piece whole = %r' % (p.env.get(fill),))
+              'path writing %s: conditions imply len(piece) <= remaining width %r: %s' % ([repr(a[1]) for _, a in ws], rem, fits))
+        R.add('WRAP-1', b, 'fill-grows-by-piece-length', shrinks, where, 'remaining width after writing the piece whole = %r (required: %r)' % (after(p, rem), rem - c))
     for p, ws in brk:
         preds = linear_preds(p.conds, base)
         longer = bool(preds) and not any(preds_hold(preds, d - u.c) for d in (0, -1, -(1 << 40)))
         R.add('WRAP-2', b, 'line-feed-only-if-piece-exceeds-remaining-width', longer, where,
-              'path writing %s: conditions imply len(piece) > width - fill: %s (otherwise an empty piece arriving at a full line yields a blank line)' % ([repr(a[1]) for _, a in ws], longer))
+              'path writing %s: conditions imply len(piece) > remaining width: %s (otherwise an empty piece arriving at a full line yields a blank line)' % ([repr(a[1]) for _, a in ws], longer))
         sa = [a for (_, t, a) in p.effects if t.callee and t.callee.is_('core::slice::split_at')]
         okargs = len(sa) == 1 and sa[0][0] == piece and sa[0][1] == rem
         spsym = None
@@ -163,8 +157,8 @@ def budget_loop(prog, R, b):
         order = len(ws) == 2 and ws[0][1][1] == first and is_lf(ws[1][1][1])
         R.add('WRAP-2', b, 'split-at-remaining-width', okargs, where, 'split_at(%s) (required: piece, %r)' % (', '.join(map(repr, sa[0])) if sa else '', rem))
         R.add('WRAP-2', b, 'first-part-then-line-feed', order, where, 'writes on the path: %s' % [repr(a[1]) for _, a in ws])
-        # fill restarts, rest carried on: the local that held the piece now holds the second part
+        # the line restarts with the full width, the rest of the piece is carried on
         pl = piece.single()
         carried = isinstance(pl, tuple) and pl[0] == 'H' and p.env.get(pl[1]) == second
-        R.add('WRAP-2', b, 'fill-restarts-and-rest-carried-on', p.env.get(fill) == Aff.const(0) and carried, where,
-              'fill = %r, piece variable = %r' % (p.env.get(fill), p.env.get(pl[1]) if isinstance(pl, tuple) and pl[0] == 'H' else None))
+        R.add('WRAP-2', b, 'fill-restarts-and-rest-carried-on', after(p, rem) == W and carried, where,
+              'remaining width after the line feed = %r (required: the width %r); piece variable = %r' % (after(p, rem), W, p.env.get(pl[1]) if isinstance(pl, tuple) and pl[0] == 'H' else None))
